@@ -73,6 +73,7 @@ class CompiledFunction:
     source_map: Dict[int, Tuple[int, int]] = field(
         default_factory=dict
     )  # bytecode_pos -> (line, column)
+    is_arrow: bool = False  # Arrow function: lexical this, not a constructor
 
 
 @dataclass
@@ -1127,6 +1128,7 @@ class Compiler:
             free_vars=self._free_vars[:],
             cell_vars=self._cell_vars[:],
             source_map=self.source_map,
+            is_arrow=True,
         )
 
         # Pop outer scope if we pushed it
